@@ -96,6 +96,7 @@ class SessionCheck(Check):
             self.note("ev_reset_after_first_dispatches", stats.get("early_reset", 0))
             self.note("sparsely_observed_sessions", stats.get("sparse", 0))
             self.note("episodic_sessions", stats.get("episodic", 0))
+            self.note("sessions_with_counted_library_feature_observers", stats.get("counted_library_observers", 0))
             self.note("ev_dispatch_during_which_an_observer_unsubscribes_itself", stats.get("self_unsubscribe", 0))
             self.note("sessions_watched_by_a_residual_graph_updater", stats.get("foreign_updater", 0))
             self.note("ev_rejected_observer_construction", stats.get("rejected_construction", 0))
@@ -189,6 +190,8 @@ class SessionCheck(Check):
         return case
 
     def shrink_candidates(self, case):
+        if "events" not in case:
+            return
         evs = case["events"]
         n = len(evs)
         # drop suffixes, then single events, then lower durations
